@@ -38,7 +38,7 @@ func (c17) ID() string { return "C17" }
 func (c17) Plan(tier string) fw.Plan {
 	p := fw.Plan{
 		Batches: 16, Cases: 400, TimeoutSec: 900, Level: "exploration",
-		Rule: "one case = one history of 40 operations (put, put-vec, put-stream with overlapping lifetimes and chunked writes, abandoned streams, get, get-stream, peek, has — through the storage package functions so that the feature-detection fallbacks are on the path) against one store: memstore, cidlink.Memory (keys = links, through OpenRead/OpenWrite) or fsstore with default setup and with hex/base32 escaping × Shard_r12/r122/r133. Keys from a hostile pool (real CID binaries, NUL bytes, '/', '..', '../../x', absolute paths, keys colliding after sharding, keys spelling shard names and '.temp/…', 1-byte, empty, 4 KiB); each key has one content (incl. zero-length). Oracle: write-once map model checked after every operation on the touched key and a sample of other keys; caller buffers are overwritten after each put. Containment of fsstore: (a) sentinel files and directory listing around the base directory must be unchanged, (b) a subset of fsstore histories runs under strace -e trace=%file and every path argument between two marker calls must lie inside the base directory. Non-trivial: ≥3 distinct keys stored and read back; distinct by hash of the operation sequence.",
+		Rule:        "one case = one history of 40 operations (put, put-vec, put-stream with overlapping lifetimes and chunked writes, abandoned streams, get, get-stream, peek, has — through the storage package functions so that the feature-detection fallbacks are on the path) against one store: memstore, cidlink.Memory (keys = links, through OpenRead/OpenWrite) or fsstore with default setup and with hex/base32 escaping × Shard_r12/r122/r133. Keys from a hostile pool (real CID binaries, NUL bytes, '/', '..', '../../x', absolute paths, keys colliding after sharding, keys spelling shard names and '.temp/…', 1-byte, empty, 4 KiB); each key has one content (incl. zero-length). Oracle: write-once map model checked after every operation on the touched key and a sample of other keys; caller buffers are overwritten after each put. Containment of fsstore: (a) sentinel files and directory listing around the base directory must be unchanged, (b) a subset of fsstore histories runs under strace -e trace=%file and every path argument between two marker calls must lie inside the base directory. Non-trivial: ≥3 distinct keys stored and read back; distinct by hash of the operation sequence.",
 		Assumptions: []string{"strace is the external observer for containment; sentinel files cover what it does not trace", "identity (no-op) escaping is not exercised: a caller who disables escaping has disabled containment"},
 		MinEvents:   []string{"ops", "puts", "gets", "stream_commits", "overlapping_streams", "store:memstore", "store:cidlink.Memory", "store:fsstore", "model_checks", "sentinel_checks", "strace_histories", "strace_path_args_checked"},
 	}
